@@ -15,6 +15,8 @@ import OFV.Proofs.C10Basis
 import OFV.Proofs.C10Two
 import OFV.Proofs.C10Spin
 import OFV.Proofs.C10Lookup
+import OFV.Proofs.C10Entries
+import OFV.Proofs.C10Filter
 
 namespace OFV.C10
 open OFV.Model OFV.Model.C10 OFV.Spec OFV.Spec.C10
@@ -207,6 +209,44 @@ theorem lookup_sound (keys : List Nat) (hk : keys.Nodup) (v : Nat) :
         searchsorted keys v (argsort keys) < keys.length ∧
           (argsort keys).getD (searchsorted keys v (argsort keys)) 0 = t :=
   lookup_sound' keys hk v
+
+/-- **the entries of one term of `get_number_preserving_sparse_operator`** (filter, sign / target loop and
+lookup assembled): with a duplicate-free basis of determinants of one length, `_build_term_op_` produces the
+entry `(target, s, k)` exactly when basis determinant number `s` passes the occupied / unoccupied pre-filter,
+`k` is the sign exponent of the loop and `target` is the position in the basis of the loop's target determinant;
+when that determinant is not in the basis there is no entry. -/
+theorem build_term_op_entries (t : Term) (states : List Det) (n : Nat) (hnd : states.Nodup)
+    (hlen : ∀ d ∈ states, d.length = n) (es : List (Nat × Nat × Nat))
+    (h : buildTermOp t states (states.map encodeDet) (argsort (states.map encodeDet)) = .ok es)
+    (e : Nat × Nat × Nat) :
+    e ∈ es ↔ e.2.1 < states.length ∧ passes t (states.getD e.2.1 []) = true ∧
+      e.2.2 = (applyTermDet t (states.getD e.2.1 [])).1 ∧ e.1 < states.length ∧
+      states.getD e.1 [] = (applyTermDet t (states.getD e.2.1 [])).2 :=
+  buildTermOp_entries t states n hnd hlen es h e
+
+/-- … and against the Spec: an entry `(target, s, k)` of a term on which the Spec action does not vanish has the
+Spec sign and the Spec image: if `t|m⟩ = (-1)^k' |m'⟩` for the basis state `m` with the bits of determinant `s`,
+then `k ≡ k' (mod 2)` and determinant number `target` has the bits of `m'`. -/
+theorem build_term_op_entries_spec (t : Term) (states : List Det) (n : Nat) (hnd : states.Nodup)
+    (hlen : ∀ d ∈ states, d.length = n) (hlt : ∀ f ∈ t, f.1 < n) (es : List (Nat × Nat × Nat))
+    (h : buildTermOp t states (states.map encodeDet) (argsort (states.map encodeDet)) = .ok es)
+    (e : Nat × Nat × Nat) (he : e ∈ es) (m k' m' : Nat) (hag : Agree (states.getD e.2.1 []) m)
+    (hact : actFTerm t m = some (k', m')) :
+    e.2.2 % 2 = k' % 2 ∧ Agree (states.getD e.1 []) m' := by
+  obtain ⟨hs, _, hk, _, htar⟩ := (buildTermOp_entries t states n hnd hlen es h e).mp he
+  have hd : states.getD e.2.1 [] ∈ states := by
+    rw [List.getD_eq_getElem?_getD, List.getElem?_eq_getElem hs]; exact List.getElem_mem hs
+  have := applyTermDet_sound t (states.getD e.2.1 []) m hag (by rw [hlen _ hd]; exact hlt) k' m' hact
+  rw [hk, htar]
+  exact this
+
+/-- **the pre-filter is exact on normal-ordered terms**: for a term `a†_{cr…} a_{an…}` with distinct creation modes
+and distinct annihilation modes (what `normal_ordered` produces), a basis determinant passes the occupied /
+unoccupied test of `_build_term_op_` exactly when the Spec action of the term on its basis state does not vanish:
+the filter drops no contribution and keeps no vanishing one. -/
+theorem prefilter_exact (cr an : List Nat) (hc : cr.Nodup) (ha : an.Nodup) (d : Det) (m : Nat) (hag : Agree d m) :
+    passes (noTerm cr an) d = true ↔ (actFTerm (noTerm cr an) m).isSome = true :=
+  passes_iff_action cr an hc ha d m hag
 
 /-- The big-endian integer encoding `determinant.dot(1 << arange(n)[::-1])` is injective on
 determinants of one length, so distinct basis determinants have distinct encodings. -/
